@@ -1,5 +1,57 @@
-import GlueVerif.Model.DataStruct
+import GlueVerif.Lemmas.C17Refresh
+/-!
+# C17 — a dataset stays structurally consistent and announces every structural change
+
+Property theorems only; helper lemmas live in `GlueVerif.Lemmas.C17*`. Every statement is about the
+executable definitions of `GlueVerif.Model.DataStruct` that the driver `Drivers/C17.lean` runs
+against `glue/core/data.py` on every check: `step` (one call of the mutation API, with the repairs
+F13/F16/F17/F18/F19 of `props.d/C17/fixes`), `obs` (what the harness reads off the real object),
+`specInv` / `specStep` / `specTrace` (the predicates the driver evaluates on the *implementation's*
+observations), `classify` (which calls the theorems cover).
+-/
 namespace GlueVerif.C17
 open GlueVerif.DataStruct
+
+/-- A fresh `Data()` (with any pool of free-standing ids) satisfies the invariant. -/
+theorem inv_init (pool : List Label) : Inv (init pool) := Lemmas.C17.inv_init pool
+
+/-- The state invariant implies the structural property on everything the harness can observe:
+unique ids, all components have the dataset's shape, one pixel attribute per dimension, one world
+attribute per dimension iff coordinates are set, two pixel↔world links per dimension iff coordinates
+are set, and `find_component_id` answers every probe label with the unique match of the first tier
+(main, derived, coordinate, linked) that contains the label, or nothing. -/
+theorem inv_spec (probe : List Label) (s : State) (h : Inv s) : specInv (obs probe s) = true :=
+  Lemmas.C17.inv_specInv probe s h
+
+/-- Lookup by name, for every state (no invariant needed): the answer is the unique match of the
+first tier that has a match, and nothing if that tier has several or no tier has any. -/
+theorem find_spec (probe : List Label) (s : State) (l : Label) :
+    findOk (tiersOf (obs probe s)) l (findImpl s l) = true :=
+  Lemmas.C17.find_spec probe s l
+
+/-- **One call preserves the invariant** — for every state and every call of the mutation API with
+arbitrary arguments (valid or invalid: wrong shapes, absent ids, non-permutations, duplicate labels,
+…) that lies inside the hypothesis `classify s op = ok`. Outside lie exactly the constructs listed
+in `Construct` (the first three are known findings F20–F22, witnessed below).
+
+Full statement (false on the code as it is, see the witnesses):
+`∀ s op, Inv s → Inv (step s op).state`. -/
+theorem step_inv_partial (s : State) (op : Op) (h : Inv s) (hc : classify s op = .ok) :
+    Inv (step s op).state :=
+  Lemmas.C17.step_inv h hc
+
+/-- **Every reachable state satisfies the invariant**: induction over all histories, of any length,
+whose calls stay inside the hypothesis. -/
+theorem inv_reachable_partial (pool : List Label) (ops : List Op) (hok : allOk (init pool) ops = true) :
+    Inv (run (init pool) ops) :=
+  Lemmas.C17.inv_run ops (Lemmas.C17.inv_init pool) hok
+
+/-- The hypothesis is satisfiable by a history that exercises additions (first component: pixel and
+world components are generated), a derived component, a refresh from a dataset with another number
+of dimensions (F13), a re-identification, a removal with its cascade, and invalid calls. -/
+example : allOk (init [1, 2, 1, 5])
+    [.register, .setCoords (some 7), .addArray 1 [3] 10, .addDerived true 3 [6], .addArray 2 [4] 20,
+     .updateFrom ⟨1, [(1, 30), (2, 31)], [2, 2], some 8⟩, .updateId 6 0, .reorder [0, 6],
+     .remove 0, .updateComponents [(0, [2, 2], 1)]] = true := by decide
 
 end GlueVerif.C17
